@@ -347,7 +347,13 @@ class Findings:
         else:
             self.violations.append({"kind": "counterexample", "oracle": name, "detail": detail, "case": slim(case), "variant": variant})
 
+    # C07 IS the agreement of the library with the independent implementation (the model): a
+    # different verdict on a concrete message is a failing input of the property itself
+    AGREEMENT_IS_THE_PROPERTY = {"C07": {"verdict", "sig_check", "verdict_panic"}}
+
     def mismatch(self, what, detail, case, variant, model=None):
+        if what in self.AGREEMENT_IS_THE_PROPERTY.get(self.prop, ()):
+            return self.oracle_failure("agrees_with_reference_implementation", "%s: %s" % (what, detail), case, variant)
         e = self.match_known("mismatch:" + what, detail)
         if e:
             self.known_hit.setdefault(e["id"], {"entry": e, "count": 0, "example": detail})["count"] += 1
